@@ -17,12 +17,12 @@ func TestStallRule(t *testing.T) {
 			return errors.New("lost reply")
 		}
 		return nil
-	}, 0, 0)
+	}, 0, []byte("0"))
 	if err != nil || discarded != 1 || n != 2 {
 		t.Fatalf("stalled failure: err=%v discarded=%d evaluations=%d", err, discarded, n)
 	}
 	n = 0
-	_, err, _ = evalCase(func(c int, o *Obs) error { n++; return errors.New("fast failure") }, 0, 0)
+	_, err, _ = evalCase(func(c int, o *Obs) error { n++; return errors.New("fast failure") }, 0, []byte("0"))
 	if err == nil || n != 1 {
 		t.Fatalf("fast failure: err=%v evaluations=%d", err, n)
 	}
@@ -31,7 +31,7 @@ func TestStallRule(t *testing.T) {
 		n++
 		time.Sleep(stallThreshold + 50*time.Millisecond)
 		return errors.New("slow deterministic failure")
-	}, 0, 0)
+	}, 0, []byte("0"))
 	if err == nil || n != 4 {
 		t.Fatalf("slow deterministic failure: err=%v evaluations=%d", err, n)
 	}
